@@ -1,5 +1,5 @@
 (* C20 — decode a case, run the model, encode the observable. *)
-From L4 Require Import Common.Val Model.Literals.
+From L4 Require Import Common.Val Model.Literals Model.LiteralVisitors.
 Local Open Scope N_scope.
 
 (* case: ( kind form payload fmt )   kind 0 size | 1 interval | 2 refresh_rate (humantime: not
@@ -24,15 +24,19 @@ Definition unit_idx (u : iunit) : N :=
 
 Definition c20_run (v : vl) : vl :=
   match v with
-  | VL [VN kind; VN form; p; _] =>
+  | VL [VN kind; VN form; p; VN fmt] =>
     match dec_scalar form p with
     | None => VBad
     | Some sc =>
+      (* an integer scalar goes through the front-end's choice of visitor method (fmt 0 serde_yaml, 1 serde_json,
+         2 toml: Model/LiteralVisitors.v); strings and floats as before *)
+      let fe := if fmt =? 2 then Toml else if fmt =? 1 then Json else Yaml in
       if kind =? 2 then VL [VN 2] else
       if kind =? 0 then
-        match parse_size sc with Some n => VL [VN 1; VN n] | None => VL [VN 0] end
+        match (match sc with SInt z => size_of_int fe z | _ => parse_size sc end) with
+        | Some n => VL [VN 1; VN n] | None => VL [VN 0] end
       else
-        match parse_interval sc with
+        match (match sc with SInt z => interval_of_int fe z | _ => parse_interval sc end) with
         | Some (u, n) => VL [VN 1; VN (unit_idx u); VN n]
         | None => VL [VN 0]
         end
